@@ -16,7 +16,7 @@ Record sst := {
   s_seen : bytes }.     (* content of the current frame so far (what the running XXH64 state stands for) *)
 
 Definition store_params (fc : fconf) : fparams :=
-  {| fp_windowLog := N.max 10 (N.min 31 (fc_windowLog fc)); fp_contentSize := false; fp_checksum := true;
+  {| fp_windowLog := N.max 10 (N.min 27 (fc_windowLog fc)); fp_contentSize := false; fp_checksum := true;
      fp_noDictID := true; fp_magicless := false |}.
 
 Definition store_bsize (fc : fconf) : N :=
